@@ -84,6 +84,13 @@ Read(s, n) ==
      /\ hs' = [hs EXCEPT ![s].pos = @ + ChLen(got)]
      /\ Log(Ev("Read", s, hs[s].name, n, "", [r |-> "Ok", bytes |-> got, pos |-> hs[s].pos + ChLen(got)]))
   /\ UNCHANGED <<streams, nw, defined>>
+\* read_to_end: everything from the cursor on (not the whole stream), the cursor ends at the end
+ReadRest(s) ==
+  /\ defined /\ hs[s].k = "r"
+  /\ LET got == Drop(Data(s), hs[s].pos) IN
+     /\ hs' = [hs EXCEPT ![s].pos = ChLen(Data(s))]
+     /\ Log(Ev("ReadRest", s, hs[s].name, 0, "", [r |-> "Ok", bytes |-> got, pos |-> ChLen(Data(s))]))
+  /\ UNCHANGED <<streams, nw, defined>>
 \* dropping a handle: the stream then holds exactly what was written to it
 Close(s) == /\ defined /\ hs[s].k # "none" /\ hs' = [hs EXCEPT ![s] = None] /\ UNCHANGED <<streams, nw, defined>>
             /\ Log(Ev("Close", s, hs[s].name, 0, "", [r |-> "Ok"]))
@@ -106,7 +113,7 @@ Next == \/ \E s \in Slots : \/ \E n \in Names : OpenW(s, n) \/ OpenR(s, n)
                             \/ \E L \in Lens : Write(s, L)
                             \/ \E k \in Seeks : Seek(s, k[1], k[2])
                             \/ \E n \in Reads : Read(s, n)
-                            \/ FlushH(s) \/ Close(s)
+                            \/ FlushH(s) \/ Close(s) \/ ReadRest(s)
         \/ \E n \in Names : RemoveS(n)
         \/ TableOp \/ FlushPkg \/ Reopen
 Spec == Init /\ [][Next]_vars
@@ -126,7 +133,7 @@ WriteLaw == [][hist'.last.op = "Write" =>
                  /\ ReadAt(new, hs[s].pos, L) = <<Chunk(nw + 1, 0, L)>>
                  /\ Take(new, hs[s].pos) = Take(old, hs[s].pos)
                  /\ hs'[s].pos = hs[s].pos + L]_vars              \* the cursor ends behind the bytes written
-ReadOnly == [][hist'.last.op \in {"Read", "Seek", "FlushH", "Close", "OpenR", "Reopen", "TableOp", "FlushPkg"} => streams' = streams]_vars
+ReadOnly == [][hist'.last.op \in {"Read", "ReadRest", "Seek", "FlushH", "Close", "OpenR", "Reopen", "TableOp", "FlushPkg"} => streams' = streams]_vars
 \* every edge: the path, the event with its specified result, and the contents of the streams nobody is working on
 Emit == PrintT(<<"EDGE", ToJson([path |-> hist'.path, ev |-> hist'.last, quiet |-> IF defined' THEN Observable(streams') ELSE << >>])>>)
 =============================================================================
